@@ -320,7 +320,7 @@ func (h *handler) doQuery(sqlString string, permalink string) (qr *QueryResult, 
 	var mx sync.Mutex
 	ctx, cancel := context.WithTimeout(context.Background(), h.QueryTimeout)
 	defer cancel()
-	stats, _ := rs.Iterate(ctx, func(inFields core.Fields) error {
+	stats, iterErr := rs.Iterate(ctx, func(inFields core.Fields) error {
 		fields = inFields
 		for _, field := range fields {
 			result.Fields = append(result.Fields, field.Name)
@@ -371,6 +371,12 @@ func (h *handler) doQuery(sqlString string, permalink string) (qr *QueryResult, 
 		mx.Unlock()
 		return true, nil
 	})
+	if iterErr != nil {
+		// the rows collected so far are incomplete (deadline, memory or size limit,
+		// failed source): report the error instead of caching them as a result
+		log.Errorf("Error iterating query results: %v", iterErr)
+		return nil, iterErr
+	}
 
 	result.TSCardinality = tsCardinality.Count()
 	result.Dims = make([]string, 0, len(dimCardinalities))
